@@ -72,7 +72,7 @@ def s_e2_validators():
   maxlen = 2 if tier == "quick" else 3
   mods = field_modules(REPO)
   s = z3.String("s")
-  solver = E.Solver()
+  solver = E.Solver(cross=(tier != "quick"))          # thorough: every query also decided by the cvc5 and z3 binaries
   res = {"obligations": 0, "discharged": 0, "evaluations": 0, "distinct_nontrivial": 0, "samples": [], "violations": [],
          "errors": [], "inconclusive": [], "functions": [], "detail": {}}
   tv_strings = [""] + ["".join(p) for n in range(1, maxlen + 1) for p in itertools.product(ALPHABET, repeat=n)] + EXTRA_LITERALS
@@ -132,6 +132,9 @@ def s_e2_validators():
   except (E.Unsupported, LookupError) as e:
     res["inconclusive"].append("tag syntax: %s" % e)
   res["queries"] = solver.queries; res["solver_s"] = solver.solver_s
+  if solver.cross:
+    res["detail"]["second_solvers"] = {"results": solver.cross_results, "disagreements": solver.disagreements,
+                                       "note": "each language-equality query exported as SMT-LIB2 (QF_SLIA) and re-decided by cvc5 (binary) and z3 4.8.12 (binary); 'unknown' = timeout or unsupported construct"}
   res["bounds"] = "strings of ANY length (z3 sequence theory); translation validated on all strings of length <= %d over a %d-character alphabet plus %d literals" % (maxlen, len(ALPHABET), len(EXTRA_LITERALS))
   json.dump(res, open(os.environ["VERIF_OUT"], "w"))
 
